@@ -22,6 +22,7 @@ META = {
     'stubs': [],
     'assumptions': ['temperature oracle: K = C + 273.15, F = C * 9/5 + 32 (defining fixed points of the property text)'],
 }
+META['bounds'].append("text constructors Quantity('7 ta', unit) / T('7 tc', unit) for tabulated, reverse-only and missing pairs")
 
 TEMP = ['°C', '°F', 'K']
 
